@@ -337,7 +337,32 @@ func c04Case(ctx *core.Ctx, out *core.Out, h int, server, comp bool, f nextFrame
 
 	// ---- execute
 	nc := xport.New([]xport.Chunk{{Data: stream}})
-	c := ws.VerifNewConn(nc, server, 4096, 4096, nil, nil, comp)
+	var c *ws.Conn
+	head := 0
+	if server && !comp && f.Rsv&4 != 0 {
+		// RSV1 towards a server that declined compression: build the connection through the
+		// real Upgrade, the client having OFFERED permessage-deflate and the server not enabling it
+		req := validRequest(someKey)
+		req.Header["Sec-Websocket-Extensions"] = []string{"permessage-deflate; client_max_window_bits"}
+		var err error
+		c, err = (&ws.Upgrader{ReadBufferSize: 4096, WriteBufferSize: 4096}).Upgrade(newFakeRW(nc, nil, 4096), req, nil)
+		if err != nil {
+			out.Inconcl("set-up handshake failed: " + err.Error())
+			return
+		}
+		head = nc.WrittenLen()
+		desc["connection_built_by"] = "Upgrader.Upgrade (offer declined)"
+		out.Count("cells_on_upgrade_built_connections", 1)
+	} else {
+		c = ws.VerifNewConn(nc, server, 4096, 4096, nil, nil, comp)
+	}
+	// history: in every other cell the application set a write deadline for an earlier
+	// write and that deadline has meanwhile passed (the usual per-write idiom); the
+	// library's own replies must not inherit it
+	if (f.Rsv+f.LenCls+f.Op)%2 == 1 {
+		c.SetWriteDeadline(time.Now().Add(-time.Second))
+		desc["stale_expired_write_deadline"] = true
+	}
 	rd := &Reader{C: c}
 	rd.InstallRecordingHandlers()
 	type delivered struct {
@@ -362,7 +387,7 @@ func c04Case(ctx *core.Ctx, out *core.Out, h int, server, comp bool, f nextFrame
 			break
 		}
 	}
-	written := nc.Written()
+	written := nc.Written()[head:]
 	wframes, wrest, werr := wire.Decode(written)
 
 	switch class {
@@ -597,6 +622,10 @@ func c04Random(ctx *core.Ctx, out *core.Out) {
 	// reading (the closing handshake is not finished until the peer's close arrives)
 	localClose := r.Chance(1, 4)
 	desc["application_sent_close_first"] = localClose
+	if !localClose && r.Chance(1, 3) {
+		c.SetWriteDeadline(time.Now().Add(-time.Second))
+		desc["stale_expired_write_deadline"] = true
+	}
 	if localClose {
 		if err := c.WriteControl(ws.CloseMessage, ws.FormatCloseMessage(1000, ""), time.Time{}); err != nil {
 			out.Inconcl("could not send the local close: " + err.Error())
